@@ -3,6 +3,7 @@ package props
 import (
 	"bytes"
 	"encoding/hex"
+	"errors"
 	"fmt"
 	"strings"
 
@@ -871,9 +872,16 @@ func c08GenRej(r *engine.Run, emit func(c08RejCase)) {
 			emit(c08RejCase{Kind: "descriptor identifier", A: bit, Base: b})
 		}
 		emit(c08RejCase{Kind: "time_signal without time", Base: b})
+		for a := 1; a < 16; a++ {
+			if a&(a-1) != 0 { // at least two reasons
+				emit(c08RejCase{Kind: "two reasons at once", A: a, Base: b})
+			}
+		}
 		emit(c08RejCase{Kind: "program splice_insert without time (outcome not asserted)", Base: b})
 	}
 }
+
+var errEither = errors.New("either of two errors")
 
 func c08CheckRej(c c08RejCase) engine.Result {
 	var res engine.Result
@@ -924,6 +932,50 @@ func c08CheckRej(c c08RejCase) engine.Result {
 		want = gots.ErrSCTE35UnsupportedSpliceCommand
 		s.CmdType, s.Time = ref.S35CmdTime, ref.S35Time{}
 		variants = append(variants, s)
+	case "two reasons at once":
+		// c.A: bit 0 unknown table id, bit 1 encrypted, bit 2 unsupported command type, bit 3 foreign
+		// identifier in a segmentation descriptor. What comes first in the section decides: a section of
+		// another table is not a splice_info_section at all, and everything behind the encrypted_packet
+		// bit of an encrypted section is ciphertext (its "command type" means nothing). Between command
+		// type and descriptor identifier either error is accepted.
+		if c.A&1 != 0 {
+			s.TableID = 0xFD
+		}
+		if c.A&2 != 0 {
+			s.Encrypted, s.EncAlg = true, 1
+		}
+		cmds := []uint8{s.CmdType}
+		if c.A&4 != 0 {
+			cmds = []uint8{0x04, 0x07, 0xFF, 0x01}
+		}
+		if c.A&8 != 0 {
+			for i := range s.Descs {
+				if s.Descs[i].IsSeg {
+					s.Descs = append([]ref.S35Desc(nil), s.Descs...)
+					s.Descs[i].Identifier = 0x43554548
+					break
+				}
+			}
+		}
+		switch {
+		case c.A&1 != 0:
+			want = gots.ErrUnknownTableID
+		case c.A&2 != 0:
+			want = gots.ErrSCTE35EncryptionUnsupported
+		case c.A&4 != 0 && c.A&8 != 0:
+			want = errEither
+		case c.A&4 != 0:
+			want = gots.ErrSCTE35UnsupportedSpliceCommand
+		default:
+			want = gots.ErrSCTE35InvalidDescriptorID
+		}
+		for _, ct := range cmds {
+			v := s
+			if c.A&4 != 0 {
+				v.CmdType, v.RawCmd = ct, []byte{0x00, 0x05, 0x06}
+			}
+			variants = append(variants, v)
+		}
 	default:
 		s.CmdType = ref.S35CmdInsert
 		s.Insert = ref.S35Insert{EventID: 3, Program: true, Out: true}
@@ -949,6 +1001,12 @@ func c08CheckRej(c c08RejCase) engine.Result {
 			continue
 		}
 		res.Nontrivial++
+		if want == errEither {
+			if err != gots.ErrSCTE35UnsupportedSpliceCommand && err != gots.ErrSCTE35InvalidDescriptorID {
+				res.Failf("NewSCTE35|"+c.Kind+"|error value", "%s (reasons %#x): error %v, want the unsupported-command or the descriptor-identifier error", c08Describe(v), c.A, err)
+			}
+			continue
+		}
 		if err != want {
 			res.Failf("NewSCTE35|"+c.Kind+"|error value", "%s (%s = %#x): error %v, want %v; input % x", c08Describe(v), c.Kind, c.A, err, want, in)
 		}
@@ -1436,7 +1494,7 @@ func init() {
 			&engine.Enum[c08RejCase]{
 				Name: "rejections",
 				Rule: "4 well-formed base sections (time_signal+descriptor, splice_null with pointer 3 + foreign + 2 descriptors, splice_insert + 3 descriptors, bare time_signal with pointer 1) x {every splice_command_type other than 00/05/06 with 4 command bodies -> ErrSCTE35UnsupportedSpliceCommand; every table_id other than FC -> ErrUnknownTableID; encrypted_packet=1 with all 64 encryption_algorithm values, cw_index 0/FF -> ErrSCTE35EncryptionUnsupported; " +
-					"segmentation descriptor (each position) whose identifier is CUEI with one of 32 bits flipped / 0 / FFFFFFFF / byte-swapped -> ErrSCTE35InvalidDescriptorID; time_signal with time_specified_flag=0 -> ErrSCTE35UnsupportedSpliceCommand; program splice_insert with time_specified_flag=0: enumerated, only 'no panic, and faithful if accepted' asserted}; non-trivial = every asserted rejection",
+					"segmentation descriptor (each position) whose identifier is CUEI with one of 32 bits flipped / 0 / FFFFFFFF / byte-swapped -> ErrSCTE35InvalidDescriptorID; time_signal with time_specified_flag=0 -> ErrSCTE35UnsupportedSpliceCommand; every combination of two or more of {unknown table id, encrypted, unsupported command type (4 values), foreign identifier in a segmentation descriptor} -> the error of what comes first in the section (table id, then encryption since everything behind that bit is ciphertext; command type vs. descriptor identifier: either); program splice_insert with time_specified_flag=0: enumerated, only 'no panic, and faithful if accepted' asserted}; non-trivial = every asserted rejection",
 				Gen:   c08GenRej,
 				Check: c08CheckRej,
 				Batch: 16,
